@@ -88,3 +88,43 @@ Proof. reflexivity. Qed.
 (** Retry BETWEEN two applications: the outer one observes the invocation once, with its final outcome *)
 Lemma heval_retry_between : snd (heval true [LM; LR 2; LM] false 5%N [HErr; HErr; HOk]) = [(5%N, true)].
 Proof. reflexivity. Qed.
+
+(** ** overlapping invocations: any interleaving counts like the invocations one after the other *)
+Lemma list_sum_app' a b : list_sum (a ++ b) = list_sum a + list_sum b.
+Proof. induction a; simpl; [reflexivity|]. rewrite IHa. lia. Qed.
+
+Lemma list_sum_cons' x l : list_sum (x :: l) = x + list_sum l.
+Proof. reflexivity. Qed.
+
+Lemma interleave_measure {A} (f : list A -> nat) :
+  f [] = 0 -> (forall x l, f (x :: l) = f [x] + f l) ->
+  forall ls L, interleave ls L -> f L = list_sum (map f ls).
+Proof.
+  intros F0 Fc ls L H. induction H as [ls HF | pre x l post L H IH].
+  - rewrite F0. induction HF as [|l ls -> _ IHl]; simpl; [reflexivity|]. rewrite F0, <- IHl. reflexivity.
+  - rewrite Fc, IH, !map_app, !list_sum_app'. simpl. rewrite (Fc x l). lia.
+Qed.
+
+Lemma interleave_count (ls : list (list hlabel)) L l :
+  interleave ls L -> hcount l L = list_sum (map (hcount l) ls).
+Proof.
+  apply (interleave_measure (hcount l)); [reflexivity|].
+  intros x r. unfold hcount. simpl. destruct (hlabel_eqb l x); reflexivity.
+Qed.
+
+Lemma interleave_length {A} (ls : list (list A)) L : interleave ls L -> length L = list_sum (map (@length A) ls).
+Proof. apply (interleave_measure (@length A)); reflexivity. Qed.
+
+(** any number of applications (the chain starts with one), Retry anywhere inside, any number of
+    overlapping invocations, ANY interleaving: exactly one observation per invocation, and per label
+    the count of the invocations run one after the other *)
+Lemma conc_one_each h st scripts L :
+  interleave (conc_logs true (LM :: st) h scripts) L ->
+  length L = length scripts
+  /\ forall l, hcount l L = list_sum (map (hcount l) (conc_logs true (LM :: st) h scripts)).
+Proof.
+  intros H. split; [|intros l; apply interleave_count; exact H].
+  rewrite (interleave_length _ _ H). unfold conc_logs. rewrite map_map. clear H.
+  induction scripts as [|s r IH]; [reflexivity|].
+  rewrite map_cons, list_sum_cons', heval_once, IH. reflexivity.
+Qed.
